@@ -4,7 +4,7 @@ import Hv.Generated.FactsC14
 namespace Hv.C14
 
 /-- The kernel-checked decision for the facts extracted from /repo on this run. -/
-theorem verdict : (classify Generated.factsC14).Sound (Holds (cfgOf Generated.factsC14) (gwOf Generated.factsC14)) :=
+theorem verdict : (classify Generated.factsC14).Sound (Holds (cfgOf Generated.factsC14) (gwOf Generated.factsC14) (uniqueOf Generated.factsC14)) :=
   classify_sound _
 
 #eval IO.println (verdictLine "C14" (classify Generated.factsC14))
@@ -16,5 +16,9 @@ theorem verdict : (classify Generated.factsC14).Sound (Holds (cfgOf Generated.fa
 #print axioms refutes_doubleClose
 #print axioms refutes_ttlFloor
 #print axioms ttl_floor
+#print axioms foreign_unlock_noop
+#print axioms waiter_variant
+#print axioms granted_when_ahead_gone
+#print axioms refutes_ticketIds
 
 end Hv.C14
